@@ -162,3 +162,97 @@ def run_shim(mod, fname, inputs, out_sizes, max_paths=16, scalars=(), fresh_exte
             outs.append(vals)
         res.append((path, outs, trace, assum, ret, dom))
     return res
+
+
+# ------------------------------------------------------------------------
+# Data-dependent special cases (if (x == 0) fast path ...): case analysis on
+# the input side.  The generic pass uses free symbols and follows, in every
+# shim, the path on which no tested equality holds; every other path is an
+# equality constraint 'symbol == constant' (or symbol == symbol) on the
+# inputs: the whole block of identities is re-derived with the inputs
+# specialised accordingly, so that code and oracle see the same inputs.
+class Specialiser:
+    def __init__(self, max_passes=24):
+        self.current = {}       # symbol name -> Rat
+        self.todo = []
+        self.seen = set([frozenset()])
+        self.max_passes = max_passes
+        self.npasses = 0
+
+    def passes(self):
+        """yields a description of each specialisation; the caller re-runs its
+        block of checks for each."""
+        self.current = {}
+        yield ""
+        while self.todo:
+            spec = self.todo.pop(0)
+            self.npasses += 1
+            if self.npasses > self.max_passes:
+                raise Unsupported("more than %d input specialisations" % self.max_passes)
+            self.current = dict(spec)
+            yield " [inputs specialised: %s]" % ", ".join("%s=%r" % kv for kv in sorted(spec))
+
+    def syms(self, prefix, n):
+        res = []
+        for i in range(n):
+            nm = "%s%d" % (prefix, i)
+            res.append(self.current[nm] if nm in self.current else Rat.var(nm))
+        return res
+
+    @staticmethod
+    def _linear(d):
+        """d (Rat) == 0 as 'symbol = value' if d is c1*x + k or c1*x + c2*y; else None."""
+        if not d.d.is_const():
+            return None
+        terms = d.n.t
+        lin = [(m, c) for m, c in terms.items() if m != ()]
+        k = terms.get((), Fraction(0))
+        if not lin or any(len(m) != 1 or m[0][1] != 1 for m, c in lin):
+            return None
+        names = [P._names[m[0][0]] for m, c in lin]
+        if any(n in ("sqrt2", "sqrt3") or "#" in n for n in names):
+            return None
+        if len(lin) == 1:
+            (m, c), = lin
+            return names[0], Rat(-k / c)
+        if len(lin) == 2 and k == 0:
+            (m1, c1), (m2, c2) = lin
+            return names[0], Rat(P.Poly.var(names[1]).scale(-c2 / c1))
+        return None
+
+    def select(self, fname, results):
+        """results: output of run_shim (list of paths).  Returns the generic
+        path and queues the specialisations of the others."""
+        if len(results) == 1:
+            return results[0]
+        generic = None
+        for r in results:
+            path = r[0]
+            eqs = {}
+            is_generic = True
+            for info, dec in path:
+                if not (isinstance(info, tuple) and len(info) == 3 and isinstance(info[0], str)):
+                    raise Unsupported("%s branches on %r" % (fname, info))
+                pred, a, b = info
+                base = pred[1:] if len(pred) == 3 else pred
+                if base not in ("eq", "ne"):
+                    raise Unsupported("%s branches on the ordering comparison %s of input-dependent values" % (fname, pred))
+                holds = (base == "eq") == bool(dec)
+                if holds:
+                    is_generic = False
+                    lin = self._linear(a - b)
+                    if lin is None:
+                        raise Unsupported("%s: equality %r == %r is not of the form symbol == constant" % (fname, a, b))
+                    eqs[lin[0]] = lin[1]
+            if is_generic:
+                generic = r
+            else:
+                spec = dict(self.current)
+                spec.update(eqs)
+                key = frozenset((k, repr(v)) for k, v in spec.items())
+                if key not in self.seen:
+                    self.seen.add(key)
+                    self.todo.append(sorted(spec.items()))
+        if generic is None:
+            raise Unsupported("%s: no generic path among %d" % (fname, len(results)))
+        return generic
